@@ -434,5 +434,5 @@ def run(ctx):
         res = ctx.run_oracle('C17/exhaustive', oracle, case, Stats())
         ctx.report('C17/exhaustive', case, res[1] if res else 'enumeration mismatch (not reproduced on re-run)')
 
-    drive(ctx, [Clause('C17/greedy-valid', case_strategy, oracle, quick=1500, thorough=80000, quick_shards=4),
-                Clause('C17/pipeline', pipeline_case, oracle_pipeline, quick=48, thorough=1500, quick_shards=8)])
+    drive(ctx, [Clause('C17/greedy-valid', case_strategy, oracle, quick=1500, thorough=240000, quick_shards=4),
+                Clause('C17/pipeline', pipeline_case, oracle_pipeline, quick=48, thorough=4500, quick_shards=8)])
